@@ -11,12 +11,12 @@ from vcheck import Check, sh, goenv, VERIF
 PROPS = {
     "C02": {
         "files": ("Properties.v",), "coqchk": ("Properties",),
-        "streams": [("request", "N * xcase", "request_mismatches"), ("partition", "N * pcase", "partition_mismatches")],
+        "streams": [("request", "N * xcase", "request_mismatches"), ("partition", "N * pcase", "partition_mismatches"), ("codec", "N * ccase", "codec_mismatches")],
         "relation": "wire_ok (encode_req) /\\ deliver (ep_of raw) payload = observed outcome; finalize raw = goa's finalised partition",
     },
     "C03": {
         "files": ("PropertiesResp.v",), "coqchk": ("PropertiesResp",),
-        "streams": [("response", "N * rcase", "response_mismatches"), ("rpartition", "N * rpcase", "rpartition_mismatches")],
+        "streams": [("response", "N * rcase", "response_mismatches"), ("rpartition", "N * rpcase", "rpartition_mismatches"), ("codec", "N * ccase", "codec_mismatches")],
         "relation": "transmit_resp (encode_resp selected) = tapped response /\\ respond (rep_of raw) result = observed outcome; finalize_resp = goa's response partition",
     },
 }
@@ -69,7 +69,7 @@ def run_prop(pid, tier, replay=None):
     dist = res["distribution"]
     cov = {"evaluations": res["evaluations"], "distinct_nontrivial": res["distinct_nontrivial"], "rule": res["rule"],
            "samples": res["samples"], "distribution": dist,
-           "model_cases": {k: dist.get(k + "_cases", 0) for k in ("request", "response", "partition", "rpartition")},
+           "model_cases": {k: dist.get(k + "_cases", 0) for k in ("request", "response", "partition", "rpartition", "codec")},
            "model_mismatches": sum(len(v) for v in mism.values()) if ck.coq_ok else None,
            "exhaustive": False}
     return ck.finish(cov, assumptions=[
